@@ -12,6 +12,17 @@ CHECKS = {
    note="Trusted: the canonical form (class + rank list from handlers()) is the complete state; g++/libstdc++ as installed; ASan/UBSan for iterator misuse."),
 }
 
+CHECKS.update({
+ "C01": dict(engine="seqx", level=MC, design="§7 C01",
+   technique="bounded-exhaustive enumeration of pipeline trees and fluent-builder call sequences on the real Pipeline/SimplePipeline, reference interpreter oracle",
+   text="Every pipeline tree up to the node/depth bound over a 13-kind handler alphabet (and every fluent builder call sequence up to the call bound) is evaluated on a 2-message sequence by the real classes and by an explicit-state reference interpreter; every delivery (sink, formatted text, attributes, raw message) must agree. Exhaustive within the bound.",
+   note="Trusted: the reference interpreter (written from the property text); formatters returning a null QString are outside the alphabet; g++/ASan/UBSan."),
+ "C16": dict(engine="seqx", level=MC, design="§7 C16",
+   technique="explicit-state BFS over message sequences on the real filters/counter (canonical state by probing copies), reference automata; enumerated regex x text space against Python re",
+   text="All message sequences up to the depth bound over 7 texts x 5 types are fed to the real LevelFilter (25 threshold x type pairs), a DuplicateFilter and a SeqNumberAttr shared by two pipelines; verdicts and numbers must equal reference automata on every transition; RegExpFilter verdicts for every enumerated expression x text are compared with Python re.",
+   note="Trusted: PCRE and Python re agree on the enumerated grammar (expressions rejected by either are excluded and counted); null and empty QString are the same text."),
+})
+
 PENDING = {}
 
 def main():
